@@ -148,5 +148,8 @@ def run(check, ctx):
     # ChaCha20's block counter: histories of seek/encrypt around both ends of the counter
     from . import c_chacha
     c_chacha.chacha_tables(check, ctx)
+    # Salsa20: the 64-bit block counter carries into its high word at every wrap of the low word
+    from . import c_salsa
+    c_salsa.salsa_tables(check, ctx, groups=("stream",))
     check.undecided.append("counter layouts and start values outside the enumerated table; ChaCha20 histories outside the table")
     check.undecided.append("data returned before the failure is correct keystream")
